@@ -49,6 +49,8 @@ type summary struct {
 	PairsOf int            `json:"pairs_total"`
 	Panics  []string       `json:"panics"`
 	Note    string         `json:"note,omitempty"`
+	Wedged  []string       `json:"wedged,omitempty"` // entry points whose call did not finish within the liveness bound
+	Taken   int64          `json:"reserved_taken"`   // Filter handed a reserved (pool-prefix) ip to a deployment pod: allocateInSubnetWithKey -> First
 }
 
 type ep struct {
@@ -56,6 +58,49 @@ type ep struct {
 	f    func(r *rand.Rand) error
 	solo bool // at most one goroutine at a time (a single daemon goroutine runs it in production)
 	mu   sync.Mutex
+}
+
+type inflightCall struct {
+	name  string
+	start time.Time
+}
+
+var (
+	callSeq       int64
+	inflight      sync.Map // call id -> inflightCall
+	reservedTaken int64
+	liveness      = 10 * time.Second
+)
+
+// livenessWatchdog: every entry point call must finish within the bound while readers and writers run; a call that
+// does not is a wedge (e.g. a re-entrant read lock with a writer queued in between): report and leave — the stuck
+// goroutines can not be recovered.
+func livenessWatchdog(s *summary) {
+	for {
+		time.Sleep(500 * time.Millisecond)
+		var stuck []string
+		inflight.Range(func(_, v interface{}) bool {
+			c := v.(inflightCall)
+			if time.Since(c.start) > liveness {
+				stuck = append(stuck, c.name)
+			}
+			return true
+		})
+		if len(stuck) > 0 {
+			sort.Strings(stuck)
+			mu.Lock()
+			s.Wedged = stuck
+			s.Panics = panics
+			s.Taken = atomic.LoadInt64(&reservedTaken)
+			b, _ := json.Marshal(s)
+			mu.Unlock()
+			fmt.Println(string(b))
+			buf := make([]byte, 1<<20)
+			n := runtime.Stack(buf, true)
+			os.Stderr.Write(buf[:n])
+			os.Exit(4)
+		}
+	}
 }
 
 var (
@@ -75,6 +120,9 @@ func runEP(idx int, eps []*ep, r *rand.Rand) {
 		}
 		defer e.mu.Unlock()
 	}
+	slot := atomic.AddInt64(&callSeq, 1)
+	inflight.Store(slot, inflightCall{name: e.name, start: time.Now()})
+	defer inflight.Delete(slot)
 	atomic.AddInt32(&running[idx], 1)
 	for j := range eps {
 		if atomic.LoadInt32(&running[j]) > 0 && (j != idx || atomic.LoadInt32(&running[j]) > 1) {
@@ -141,6 +189,12 @@ func ipamEntryPoints(seed int64) ([]*ep, func(), error) {
 		pods = append(pods, mkPod(fmt.Sprintf("dp-rs1-x%d", i), "ns1", "ReplicaSet", "dp-rs1", fmt.Sprintf("ud%d", i),
 			map[string]string{constant.ReleasePolicyAnnotation: constant.Never}))
 	}
+	for i := 0; i < 4; i++ {
+		// deployment pods of a sized pool: every Filter reads pool.Size of the PoolLister's (shared) object
+		pods = append(pods, mkPod(fmt.Sprintf("dpp-rs1-x%d", i), "ns1", "ReplicaSet", "dpp-rs1", fmt.Sprintf("up%d", i),
+			map[string]string{constant.IPPoolAnnotation: "pool1", constant.ReleasePolicyAnnotation: constant.Never}))
+	}
+	objs = append(objs, &appv1.Deployment{ObjectMeta: metav1.ObjectMeta{Name: "dpp", Namespace: "ns1"}, Spec: appv1.DeploymentSpec{Replicas: &two}})
 	pods = append(pods, mkPod("solo", "ns1", "", "", "us", nil))
 	pods = append(pods, mkPod("ranged-0", "ns1", "StatefulSet", "ranged", "ur", map[string]string{
 		constant.ExtendedCNIArgsAnnotation: `{"request_ip_range":[["10.49.27.216~10.49.27.220"]]}`}))
@@ -168,6 +222,30 @@ func ipamEntryPoints(seed int64) ([]*ep, func(), error) {
 			return d.Plugin.Bind(&schedulerapi.ExtenderBindingArgs{PodName: p.Name, PodNamespace: p.Namespace, PodUID: p.UID, Node: node(r)})
 		}},
 		{name: "unbind", f: func(r *rand.Rand) error { return d.Plugin.VerifLsUnbind(pick(r)) }},
+		{name: "dpReserveFilter", f: func(r *rand.Rand) error {
+			// bind a deployment pod (policy never), unbind it (its ip is reserved under the deployment prefix), then Filter a
+			// sibling: Filter hands it the reserved ip through allocateInSubnetWithKey -> AllocateInSubnetWithKey + First
+			a, b := r.Intn(6), r.Intn(6)
+			pa, pb := pods[2+3*a], pods[2+3*b] // the dp-rs1-x* pods
+			if _, _, err := d.Plugin.Filter(pa, d.Nodes); err == nil {
+				d.Plugin.Bind(&schedulerapi.ExtenderBindingArgs{PodName: pa.Name, PodNamespace: pa.Namespace, PodUID: pa.UID, Node: node(r)})
+			}
+			d.Plugin.VerifLsUnbind(pa)
+			before, _ := d.Plugin.GetIpam().ByPrefix("dp_ns1_dp_")
+			reserved := 0
+			for _, f := range before {
+				if f.Key == "dp_ns1_dp_" {
+					reserved++
+				}
+			}
+			_, _, err := d.Plugin.Filter(pb, d.Nodes)
+			if err == nil && reserved > 0 {
+				if f, _ := d.Plugin.GetIpam().First("dp_ns1_dp_" + pb.Name); f != nil {
+					atomic.AddInt64(&reservedTaken, 1)
+				}
+			}
+			return err
+		}},
 		{name: "podEvent", f: func(r *rand.Rand) error {
 			p := pick(r).DeepCopy()
 			switch r.Intn(3) {
@@ -208,7 +286,7 @@ func ipamEntryPoints(seed int64) ([]*ep, func(), error) {
 		{name: "poolAPI", f: func(r *rand.Rand) error {
 			switch r.Intn(3) {
 			case 0:
-				body, _ := json.Marshal(map[string]interface{}{"name": fmt.Sprintf("pool%d", r.Intn(3)), "size": 1 + r.Intn(3), "preAllocateIP": r.Intn(2) == 0})
+				body, _ := json.Marshal(map[string]interface{}{"name": fmt.Sprintf("pool%d", r.Intn(3)), "size": 1 + r.Intn(6), "preAllocateIP": r.Intn(2) == 0})
 				d.HTTP("POST", "/v1/pool", body)
 			case 1:
 				d.HTTP("GET", fmt.Sprintf("/v1/pool/pool%d", r.Intn(3)), nil)
@@ -512,9 +590,14 @@ func main() {
 	prog := flag.String("prog", "", "lockset program for -mode prog")
 	reps := flag.Int("reps", 30, "repetitions of the program")
 	only := flag.String("only", "", "ipam|galaxy (default both)")
+	live := flag.Duration("liveness", 10*time.Second, "every entry point call must finish within this time")
 	flag.Parse()
 	lockset.Quiet()
+	liveness = *live
 	s := summary{Mode: *mode, Ops: ops, Errs: errs}
+	if *mode == "load" {
+		go livenessWatchdog(&s)
+	}
 	switch *mode {
 	case "prog":
 		if err := runProg(*prog, *reps, *seed); err != nil {
@@ -544,6 +627,7 @@ func main() {
 	}
 	mu.Lock()
 	s.Panics = panics
+	s.Taken = atomic.LoadInt64(&reservedTaken)
 	sort.Strings(s.Panics)
 	b, _ := json.Marshal(s)
 	mu.Unlock()
